@@ -211,9 +211,11 @@ class CFG:
         return [t for t, lab in self.nodes[i].succ if not (skip_exc and lab == "exc")]
 
     # -- must-facts (forward, intersection) ----------------------------------------------------------
-    def facts(self) -> Dict[int, FrozenSet]:
-        """facts()[n] = set of atoms (and 'or'-facts) that hold whenever control reaches node n (before it executes)."""
-        if self._facts is not None:
+    def facts(self, blocked: Optional[Set[int]] = None) -> Dict[int, FrozenSet]:
+        """facts()[n] = set of atoms (and 'or'-facts) that hold whenever control reaches node n (before it executes).
+        With `blocked`, only paths that avoid the blocked nodes are considered (nodes reachable only through them
+        get the value None)."""
+        if blocked is None and self._facts is not None:
             return self._facts
         TOP = None
         IN: Dict[int, Optional[FrozenSet]] = {n.id: TOP for n in self.nodes}
@@ -224,7 +226,7 @@ class CFG:
             i = work.pop()
             n = self.nodes[i]
             cur = IN[i]
-            if cur is None:
+            if cur is None or (blocked and i in blocked):
                 continue
             out_base = _kill(cur, kills[i])
             for t, lab in n.succ:
@@ -238,6 +240,8 @@ class CFG:
                 if old is None or new != old:
                     IN[t] = new
                     work.append(t)
+        if blocked is not None:
+            return IN  # type: ignore[return-value]
         self._facts = {k: (v if v is not None else frozenset()) for k, v in IN.items()}
         self._reach = {k for k, v in IN.items() if v is not None}
         return self._facts
